@@ -58,6 +58,35 @@ def loopback_pass(ctx, cases, both):
     return len(idx)
 
 
+def command_pass(ctx):
+    """SessionTask::run with its command channel (C01_Commands.v): ChangeDecoding / Shutdown / closed
+    channel between requests and while a reply write pends (gated transport), against the transition
+    system of Base/ServerRun.v over the model and over the reference server"""
+    r = ctx.rng
+    n = 500 if ctx.quick() else 5000
+    cases = [srv.gen_script(r, 'tcp' if r.random() < 0.6 else 'rtu') for _ in range(n)]
+    impl, norm, both = srv.run_scripts(ctx, cases)
+    bad = []
+    ends = {}
+    for k, (c, o, b) in enumerate(zip(cases, norm, both)):
+        ends[o[2]] = ends.get(o[2], 0) + 1
+        sp = srv.split3(b[1])
+        mo = srv.split3(b[0]) if b[0] is not None else sp
+        if (o[0], o[1], o[2]) != (sp[0], sp[1], sp[2]) or (o[0], o[1], o[2]) != (mo[0], mo[1], mo[2]):
+            bad.append(k)
+    ctx.oblige('correspondence:session-with-commands', not bad, f'{len(bad)} of {len(cases)} scripts differ')
+    if bad:
+        k = bad[0]
+        nfi = srv.split3(both[k][1]) == (norm[k][0], norm[k][1], norm[k][2])
+        ctx.violation('server.commands', 'session with command events differs from the reference: ' + srv.script_line(cases[k])[:300],
+                      {'harness_line': srv.script_line(cases[k]), 'impl': impl[k], 'model': both[k][0], 'spec': both[k][1]}, no_failing_input=nfi)
+    cut = sum(1 for c, o in zip(cases, norm) if o[2] == 'Shutdown' and '@block' in c[3])
+    ok = ends.get('Shutdown', 0) >= 10 and ends.get('open', 0) >= 10 and ends.get('blocked', 0) >= 3 and cut >= 5
+    ctx.oblige('command-scripts-reach-expected-classes', ok, f'{ends} shutdown-after-block={cut}')
+    return {'command-scripts': len(cases), 'command-scripts:ended-Shutdown': ends.get('Shutdown', 0), 'command-scripts:left-blocked': ends.get('blocked', 0),
+            'command-scripts:shutdown-in-a-script-with-blocked-writes': cut}
+
+
 def run(ctx):
     if not srv.prepare(ctx):
         return
@@ -75,6 +104,7 @@ def run(ctx):
     extra = {}
     if not ctx.replay:
         extra['rtu-unknown-function-sessions'] = rtu_unknown_function(ctx)
+        extra.update(command_pass(ctx))
         if not ctx.quick():
             extra['loopback-tcp-sessions'] = loopback_pass(ctx, cases, both)
     cl = srv.coverage(ctx, cases, impl,
@@ -84,6 +114,6 @@ def run(ctx):
     if not ctx.replay:
         need = ['empty', 'unsupported', 'invalid:length', 'invalid:zero', 'invalid:limit', 'invalid:overflow', 'invalid:coil-value',
                 'valid:fc1', 'valid:fc2', 'valid:fc3', 'valid:fc4', 'valid:fc5', 'valid:fc6', 'valid:fc15', 'valid:fc16',
-                'valid:fc15:bytecount-lie', 'replies:exception', 'replies:silent', 'replies:normal', 'sessions:units=0', 'sessions:units=3']
+                'valid:fc15:bytecount-lie', 'replies:exception', 'replies:silent', 'replies:normal', 'sessions:units=0', 'sessions:units=3', 'sessions:with-shared-handler-object']
         missing = [k for k in need if cl.get(k, 0) < 3]
         ctx.oblige('generator-reaches-expected-classes', not missing, 'missing: ' + ','.join(missing))
